@@ -102,7 +102,8 @@ fn config(sh: &Arc<Shared>, g: u64) -> log4rs::Config {
         b = b.appender(log4rs::config::Appender::builder().build(name.clone(), Box::new(GenAppender { g, k, sh: sh.clone() })));
         rb = rb.appender(name);
     }
-    b.build(rb.build(log::LevelFilter::Info)).unwrap()
+    // even generations admit the probe records (logged at Info), odd generations do not
+    b.build(rb.build(if g % 2 == 0 { log::LevelFilter::Info } else { log::LevelFilter::Error })).unwrap()
 }
 
 fn set_config(sh: &Arc<Shared>, h: &log4rs::Handle) -> u64 {
@@ -127,7 +128,7 @@ fn set_config(sh: &Arc<Shared>, h: &log4rs::Handle) -> u64 {
 fn log_one(sh: &Arc<Shared>, logger: &log4rs::Logger, t: u64) {
     TID.with(|x| x.set(t));
     sh.events.lock().unwrap().push(json!({"e": "LogStart", "t": t}));
-    let r = catch(|| logger.log(&log::Record::builder().level(log::Level::Error).target("x").args(format_args!("m")).build()));
+    let r = catch(|| logger.log(&log::Record::builder().level(log::Level::Info).target("x").args(format_args!("m")).build()));
     sh.events.lock().unwrap().push(match r {
         Ok(()) => json!({"e": "LogEnd", "t": t}),
         Err(p) => json!({"e": "Panic", "in": "log", "t": t, "msg": p}),
@@ -166,7 +167,7 @@ fn scenario_free(rng: &mut Rng, events: &Events) {
     let mut hs = vec![];
     for t in 1..=nl {
         let (sh, logger) = (sh.clone(), logger.clone());
-        let n = 1 + rng.below(3);
+        let n = 2 + rng.below(10);
         hs.push(std::thread::spawn(move || {
             for _ in 0..n {
                 log_one(&sh, &logger, t);
@@ -175,7 +176,7 @@ fn scenario_free(rng: &mut Rng, events: &Events) {
     }
     for _ in 0..nr {
         let (sh, h) = (sh.clone(), h.clone());
-        let n = 1 + rng.below(2);
+        let n = 1 + rng.below(4);
         hs.push(std::thread::spawn(move || {
             for _ in 0..n {
                 set_config(&sh, &h);
@@ -194,6 +195,7 @@ fn scenario_free(rng: &mut Rng, events: &Events) {
 fn scenario_parked_in_appender(k: u64, events: &Events) {
     let (sh, logger, h) = fresh(events);
     set_config(&sh, &h);
+    set_config(&sh, &h); // generation 2 admits the record
     sh.gate.reset();
     sh.gate_k.store(k, Ordering::SeqCst);
     sh.gate.armed.store(true, Ordering::SeqCst);
